@@ -101,14 +101,20 @@ func genC03(r *Rng, maxOps int, allowEmptyAnn bool) []rslStep {
 			for j := 0; j < k; j++ {
 				s.IDs = append(s.IDs, r.Intn(made))
 			}
+			// position of a bad identifier: anywhere, but often NOT the last one (a check that only
+			// looks at the last identifier must not pass)
+			badPos := r.Intn(len(s.IDs))
+			if len(s.IDs) > 1 && r.Chance(60) {
+				badPos = r.Intn(len(s.IDs) - 1)
+			}
 			switch x := r.Intn(100); {
-			case x < 8:
-				s.IDs[r.Intn(len(s.IDs))] = -1 // a commit that is not an RSL entry
+			case x < 12:
+				s.IDs[badPos] = -1 // a commit that is not an RSL entry
 				willFail = true
-			case x < 16:
-				s.IDs[r.Intn(len(s.IDs))] = -2 // an object that does not exist
+			case x < 24:
+				s.IDs[badPos] = -2 // an object that does not exist
 				willFail = true
-			case x < 19 && allowEmptyAnn && i >= legacy:
+			case x < 27 && allowEmptyAnn && i >= legacy:
 				s.IDs = []int{}
 				if !willFail {
 					dead = true
